@@ -9,6 +9,7 @@ oracle         differential execution: untouched function vs tooled / tooled in 
 import json
 
 import core
+import m2corr
 import pylite
 import progrun
 import pyprog
@@ -73,6 +74,8 @@ def no_known(fn, kinds, base, got, kind, sel_vars):
 
 
 def run(chk):
+    m2corr.ast_leg(chk, 120 if chk.tier == "quick" else 2500)
+    m2corr.exec_leg(chk, 100 if chk.tier == "quick" else 2000)
     rng = chk.rng
     chk.cov["rule"] = (
         "generated functions and generators over the statement forms ptera rewrites or passes through "
